@@ -317,6 +317,40 @@ def ring_spec(draw, modes=None, chords=True, thru=True, max_n=5):
                 cch.insert(0, ["scale", 1.0])
             links.append([names[a], "o", cch, names[b], nm])
             extra += 1
+    # parallel link: a ring member reads its predecessor's output (a model's or the pull-based member's) a second time
+    # through a second input with a delay of its own - two inputs of one component fed by the SAME output with
+    # different delays; the extra input is declared before or after the ring input. It closes a second cycle, so it
+    # carries a sufficient delay of its own in the modes that promise a run.
+    if chords and draw(st.integers(0, 3)) == 0:
+        j = draw(st.integers(0, n - 1))
+        tgt = names[(j + 1) % n]
+        l = next(x for x in links if x[3] == tgt and x[4] == "i0")
+        nm = f"i{len(ins[tgt])}"
+        pch = None
+        if l[0] == "T0":
+            # behind the pull-based member the two inputs must ask it for non-decreasing times (anything else is the
+            # known finding F12): delayed input first, delay <= the consumer's smallest step - which can never be a
+            # sufficient delay, so only in the modes that do not promise a run
+            # (and only with a common start: the clamp of a delayed request to a later start breaks the monotony again)
+            if mode in ("none", "partial") and len(set(starts.values())) == 1:
+                pch = [["dfix", draw(st.integers(1, min(steps[tgt])))]]
+                ins[tgt].insert(0, nm)
+        else:
+            if draw(st.booleans()):
+                ins[tgt].insert(0, nm)
+            else:
+                ins[tgt].append(nm)
+            if mode in ("suff", "suff_split", "suff_multi"):
+                pch = [["dfix", need + draw(st.integers(0, 3))]]
+            elif mode == "dpush":
+                pch = [["dpush"]]
+            else:
+                pch = [["dfix", draw(st.integers(1, need + 2))]]
+        if pch is not None:
+            if draw(st.integers(0, 2)) == 0:
+                pch.insert(0, ["scale", 1.0])
+            links.append([l[0], l[1], pch, tgt, nm])
+            extra += 1
     if chords and draw(st.booleans()):
         t = {"kind": "model", "name": "Tail", "start": 0, "steps": [draw(st.integers(1, 5))], "ins": ["i0"], "outs": ["o"]}
         comps.append(t)
